@@ -38,9 +38,10 @@ def validate_row_run(model, ch):
     row = []
     kinds = []
     for column in range(width):
-        kind = ch.choose(("cell kind", column), ["str", "not-a-str"]) if column < 2 else "str"
+        # a surplus cell may be the empty text (a trailing delimiter, a padded sheet): the row is too long all the same
+        kind = ch.choose(("cell kind", column), ["str", "not-a-str", "number"] if column < 2 else ["str", "empty"])
         kinds.append(kind)
-        row.append(Atom("cell%d" % column, "cell%d" % column) if kind == "str" else Opaque("nonstr"))
+        row.append(Atom("cell%d" % column, "cell%d" % column) if kind == "str" else "" if kind == "empty" else 7 if kind == "number" else Opaque("nonstr"))
     info = model.func(VALIDATOR + ".validate_row")
     try:
         interp.call_function(info, [validator, row], {}, None)
